@@ -16,7 +16,7 @@ EXTS = (".py", ".md", ".json", ".txt", ".yaml", ".yml", ".toml")
 # properties that rest on the whole parser (every non-rule file under pymarkdown/ is relevant to them) ...
 PARSER_WIDE = ["C01", "C02", "C03", "C04", "C05", "C08"]
 # ... and the one that rests on every rule body and on the token shapes the parser hands them
-EVERYTHING = ["C07"]
+EVERYTHING = ["C07", "C10", "C11", "C14", "C15", "C17", "C18"]      # + the shell properties whose thorough tier takes under a minute
 
 
 def repo():
